@@ -26,7 +26,7 @@ type c11Case struct {
 
 var (
 	c11Env  = interp.NewExecEnv("sh")
-	c11Vars = []string{"x", "y", "z"}
+	c11Vars = []string{"x", "y", "z", "x1"} // a name with a digit among them
 )
 
 func c11Key(c c11Case) []string {
@@ -412,7 +412,7 @@ func TestC11(t *testing.T) {
 		toks := tr.Tokens(func() bool { return rapid.IntRange(0, 7).Draw(rt, "paren") == 0 })
 		if path == "expand" {
 			for i, tk := range toks {
-				if (tk == "x" || tk == "y" || tk == "z") && (i+1 == len(toks) || !isAsgOrInc(toks[i+1])) && (i == 0 || !isAsgOrInc(toks[i-1])) {
+				if (tk == "x" || tk == "y" || tk == "z" || tk == "x1") && (i+1 == len(toks) || !isAsgOrInc(toks[i+1])) && (i == 0 || !isAsgOrInc(toks[i-1])) {
 					switch rapid.IntRange(0, 5).Draw(rt, "dollar") {
 					case 0:
 						toks[i] = "$" + tk
